@@ -195,6 +195,38 @@ Example C06_source_tie_small_example :
   gen_ensureCorrectWindingOrder [(0,0); (0,1); (1,0)] false = Ok [(1,0); (0,1); (0,0)].
 Proof. vm_compute. repeat split; reflexivity. Qed.
 
+From Texel Require Import Snap.ProofsGenKmpDedup.
+From Texel.Gen Require Import KmpDedupGen.
+
+(** ** tie G2 (loops): kmpDeduplicate (snap.go) and mapslicehelp.RemoveSequences REGENERATED from source on this run
+    (gen/KmpDedupGen.v) are the model's, for EVERY ring and every outcome (value, Err IndexOutOfRange,
+    Err SliceBounds; neither side ever returns Err OutOfFuel: C06_kmp_no_hang).  Translated: the scan loop with
+    [continue], the reverse scan (3-clause [for] with [break]), the corpus expansion ([for {}], the inner [range]
+    loop with its [stop] flag), the five branches with their index arithmetic, the restart index, both [var]
+    declarations, RemoveSequences' loop.  The scan loop runs on the model's fuel + 1 (the model reports a negative
+    restart index in the iteration that computes it, the Go code when it indexes with it one iteration later).
+    NOT translated, kept as the model's function of the same meaning after an AST check that the source calls the
+    expected library function:
+    - [sortedmap.New[string, [2]int](n, func(a, b [2]int) bool { return a[xAx] < b[xAx] })] = the empty [seqmap];
+      [X.Insert(fmt.Sprint(segment), [2]int{a, b})] = [seq_insert X segment (a, b)] (key = the segment itself);
+      [mmap := X.Map(); for _, key := range X.Keys() { .. mmap[key] .. }] = the entries of X in order;
+    - [slices.Contains(segment, v)] = [mem_pt v segment]; [copy(dst, src)] and [slices.Reverse(x)] on a local created
+      by [make] = [go_copy] (Prelude/GoLoop.v) and [rev]; [append(corpus, ring[a:b]...)] = [corpus ++ ring[a:b]]
+      (slices as values: the elements written through the shared backing array are the ones read);
+    - kmpSearchAll is the regenerated one of C06_source_tie_kmp_search; [int] is exact Z, [2]float64 is [pt]. *)
+Theorem C06_source_tie_kmp_deduplicate :
+  (forall r, gen_kmpDeduplicate r = kmpDeduplicate r) /\
+  (forall s m, gen_RemoveSequences s m = removeSequences s m).
+Proof. split; [exact gen_kmpDeduplicate_spec | exact gen_RemoveSequences_spec]. Qed.
+Print Assumptions C06_source_tie_kmp_deduplicate.
+
+(** the regenerated code runs: a zigzag a b a b a b c is reduced to a b c; a spike a b c b d loses nothing (backtrace) *)
+Example C06_source_tie_kmp_deduplicate_example :
+  gen_kmpDeduplicate [(1,1); (2,2); (1,1); (2,2); (1,1); (2,2); (3,3)] = Ok [(1,1); (2,2); (3,3)] /\
+  gen_kmpDeduplicate [(1,1); (2,2); (3,3); (2,2); (4,4)] = kmpDeduplicate [(1,1); (2,2); (3,3); (2,2); (4,4)] /\
+  gen_RemoveSequences [(1,1); (2,2); (3,3); (4,4)] [([(9,9)], (1, 3))] = Ok [(1,1); (4,4)].
+Proof. vm_compute. repeat split; reflexivity. Qed.
+
 From Texel Require Import Index.ProofsInsert Snap.ModelFull Snap.ProofsFull.
 Theorem C06_full_model_agrees_upto_level_32 : forall g P levels cfg, (gdeep g <= 32)%nat ->
   snapPolygonFull g P levels cfg = snapPolygon g P levels cfg.
